@@ -16,7 +16,8 @@ import tempfile
 import time
 
 VERIF = os.path.dirname(os.path.dirname(os.path.abspath(__file__)))
-LEAN = os.path.join(VERIF, "lean")
+LEAN = os.environ.get("VERIF_LEAN_DIR") or os.path.join(VERIF, "lean")
+EVID = os.environ.get("VERIF_EVIDENCE_DIR") or os.path.join(VERIF, "evidence")
 REPO = os.environ.get("VERIF_REPO", "/repo")
 NCPU = min(16, os.cpu_count() or 4)
 
@@ -313,14 +314,18 @@ class Ctx:
             },
             "assumptions": assumptions, "wall_s": round(wall, 2), "violations": len(real),
         }
-        os.makedirs(os.path.join(VERIF, "evidence"), exist_ok=True)
-        with open(os.path.join(VERIF, "evidence", self.prop + ".json"), "w") as f:
+        os.makedirs(EVID, exist_ok=True)
+        with open(os.path.join(EVID, self.prop + ".json"), "w") as f:
             json.dump(ev, f, indent=1, default=str)
         rc = 0
+        if [v for v in real if not v["no_input"]]:
+            # a concrete failing input exists: report those, not the broken-correspondence notices around them
+            real = [v for v in real if not v["no_input"]]
+        real.sort(key=lambda v: (v["no_input"], sum(len(l) for l in v["replay"])))
         if real:
-            os.makedirs(os.path.join(VERIF, "evidence", "replay"), exist_ok=True)
+            os.makedirs(os.path.join(EVID, "replay"), exist_ok=True)
             for i, v in enumerate(real[:5]):
-                path = os.path.join(VERIF, "evidence", "replay", "%s_%d.txt" % (self.prop, i))
+                path = os.path.join(EVID, "replay", "%s_%d.txt" % (self.prop, i))
                 with open(path, "w") as f:
                     f.write("# property=%s seed=%d tier=%s repo=%s\n# %s\n# key=%s\n" % (self.prop, self.seed, self.tier, REPO, v["what"], v["key"]))
                     if v["detail"]:
